@@ -85,6 +85,7 @@ class _Facts:
         self.kw_in: set = set()
         self.kw_out: set = set()
         self.len_guard: int = 0  # the argument tuple is known to hold at least this many entries
+        self.max_len: Optional[int] = None  # ... at most this many entries
 
     def restrict(self, s) -> None:
         s = set(s)
@@ -97,6 +98,9 @@ def _facts(lits, cv: Term, all_names: set) -> _Facts:
     for x in lits:
         if _call_var_of(x) == cv:
             fx.len_guard = max(fx.len_guard, 1)  # truth test of the tuple
+            continue
+        if x[0] == "not" and _call_var_of(x[1]) == cv:
+            fx.max_len = 0  # `not call.args`
             continue
         if x[0] == "or":
             # name == A or name == B ...: one of these methods
@@ -141,6 +145,10 @@ def _facts(lits, cv: Term, all_names: set) -> _Facts:
                     fx.len_guard = max(fx.len_guard, r[1] + 1)
                 elif o in ("GtE", "Eq"):
                     fx.len_guard = max(fx.len_guard, r[1])
+                if o == "Lt":  # len < const
+                    fx.max_len = r[1] - 1 if fx.max_len is None else min(fx.max_len, r[1] - 1)
+                elif o in ("LtE", "Eq"):
+                    fx.max_len = r[1] if fx.max_len is None else min(fx.max_len, r[1])
     return fx
 
 
@@ -169,6 +177,27 @@ def _uses(t: Term, conds: tuple, out: list) -> None:
     for x in t:
         if isinstance(x, tuple):
             _uses(x, conds, out)
+
+
+def _kw_uses(t: Term, conds: tuple, out: list) -> None:
+    """Collect (key, call var, local conditions, term) for every read of a recorded call's kwargs by constant key:
+    `<call>.kwargs["k"]` and `<call>.kwargs.get("k", ...)`."""
+    if not isinstance(t, tuple) or not t:
+        return
+    if t[0] == "ifexp":
+        _kw_uses(t[1], conds, out)
+        _kw_uses(t[2], conds + sym.conj_of(t[1]), out)
+        _kw_uses(t[3], conds + sym.conj_of(sym.mk_not(t[1])), out)
+        return
+    # only direct reads of the recorded mapping: a local copy (`call.kwargs.copy()`, `dict(call.kwargs)`) may have
+    # been completed by the function itself before it is read
+    if t[0] == "idx" and t[2][0] == "const" and isinstance(t[2][1], str) and t[1][0] == "attr" and t[1][2] == "kwargs":
+        out.append((t[2][1], t[1][1], conds, t, False))
+    if t[0] == "call" and t[1][0] == "attr" and t[1][2] == "get" and t[2] and t[2][0][0] == "const" and isinstance(t[2][0][1], str) and t[1][1][0] == "attr" and t[1][1][2] == "kwargs":
+        out.append((t[2][0][1], t[1][1][1], conds, t, True))
+    for x in t:
+        if isinstance(x, tuple):
+            _kw_uses(x, conds, out)
 
 
 def _count_uses(t: Term) -> int:
@@ -270,7 +299,50 @@ def check(E: Engine, rep: Report, scopes: list[FunctionInfo], rule: str = "ARGS"
                     n_undet += 1
                 rep.check(not problems, rule, key, f"`{sym.show(term)[:60]}` is read only where argument {k} of the recorded call is positional and mandatory" + (" (method set undetermined on this path: not decided there)" if undet else ""),
                           f"{g.short}: `{sym.show(term)[:80]}` indexes the positional arguments of a recorded call, but {problems[0] if problems else ''} -- IndexError (or the wrong argument) for a call the user wrote validly", E.where(g, l.node))
-    return {"positional_index_sites": n_sites, "undetermined": n_undet}
+    # ---- the dual: a keyword read of a parameter that may have been passed positionally
+    n_kw = 0
+    for g in scopes:
+        a = g.node.args
+        call_params = {p.arg for p in a.posonlyargs + a.args + a.kwonlyargs if p.annotation is not None and norm(p.annotation).strip("'\"").split(".")[-1] == "_Call"}
+        src = norm(g.node)
+        if not call_params and "_calls" not in src:
+            continue
+        Sg = sym.sym_of(E.P, g, True)
+        seen_kw: set = set()
+        for l in Sg.log:
+            found2: list = []
+            for t in (l.target, l.value):
+                if t is not None:
+                    _kw_uses(t, (), found2)
+            for k, cv, local, term, with_default in found2:
+                if not _is_recorded_call(cv, call_params):
+                    continue
+                lits = sym.conj_of(l.cond) + tuple(local)
+                sig = (k, cv, lits)
+                if sig in seen_kw:
+                    continue
+                seen_kw.add(sig)
+                fx = _facts(lits, cv, all_names)
+                cand = fx.names
+                if cand is None:
+                    continue  # method set undetermined on this path: not decided
+                problems = []
+                for mname in sorted(cand - fx.not_names):
+                    m = rec.get(mname)
+                    if m is None:
+                        continue
+                    params = _positional_params(m)
+                    if k not in params:
+                        continue  # keyword-only (or absent) for this method: can only be in kwargs
+                    i = params.index(k)
+                    if k in fx.kw_in or (fx.max_len is not None and fx.max_len <= i):
+                        continue
+                    problems.append(f"`{mname}({', '.join(params)})`: `{k}` is positional parameter {i}; a call recorded as `{mname}(<value>, ...)` keeps it in `.args`, so this read " + ("silently takes the fallback" if with_default else "raises KeyError"))
+                n_kw += 1
+                who = "/".join(sorted(cand - fx.not_names)) or "?"
+                rep.check(not problems, rule, f"{g.short}|kwargs[{k}]|{who}|keyword-argument-present", f"`{sym.show(term)[:60]}` is read only where `{k}` cannot have been passed positionally (or the keyword form was tested)",
+                          f"{g.short}: `{sym.show(term)[:80]}` reads a keyword of a recorded call, but {problems[0] if problems else ''} (the path neither tests `'{k}' in <call>.kwargs` nor excludes positional arguments)", E.where(g, l.node))
+    return {"positional_index_sites": n_sites, "undetermined": n_undet, "keyword_read_sites": n_kw}
 
 
 def default_scopes(E: Engine, modules: tuple[str, ...]) -> list[FunctionInfo]:
